@@ -26,10 +26,16 @@ VARIABLES notified, q, ackSelf, ackKids, quitKids,
           wPc, wJob, wMyJob, wHasRes,
           ePc, search, quitFlag, pending, optsDone, ponder, infinite, stopReq, mainJob, sid, jobsDone, waitForStop,
           pPc, pIdx, everSearched,
-          out, readyoks
+          out, readyoks,
+          sent, applied, taking     \* options: handed over by the protocol thread / in effect / in the engine thread's hand (taken, not yet applied)
+ov == <<sent, applied, taking>>
+\* Defect switch (overridden in MC_SearchControl_optsdefect.cfg): the options barrier opens as soon as the engine thread has TAKEN the
+\* pending batch (pendingOptions.empty()) instead of when it has applied everything (optionsSetFinished).  Must be refuted.
+BarrierOnTaken == FALSE
+OptsBarrierOpen == IF BarrierOnTaken THEN pending = 0 ELSE optsDone
 vars == <<notified, q, ackSelf, ackKids, quitKids, wPc, wJob, wMyJob, wHasRes,
           ePc, search, quitFlag, pending, optsDone, ponder, infinite, stopReq, mainJob, sid, jobsDone, waitForStop,
-          pPc, pIdx, everSearched, out, readyoks>>
+          pPc, pIdx, everSearched, out, readyoks, sent, applied, taking>>
 
 Cmd(t, j, s) == [t |-> t, job |-> j, sid |-> s]
 Purge(s) == SelectSeq(s, LAMBDA c : c.t \notin {"START","STOP","RESULT"})
@@ -47,6 +53,7 @@ Init ==
   /\ ponder = FALSE /\ infinite = FALSE /\ stopReq = FALSE /\ mainJob = 0 /\ sid = 0 /\ jobsDone = 0 /\ waitForStop = FALSE
   /\ pPc = "next" /\ pIdx = 1 /\ everSearched = FALSE
   /\ out = [s \in 0..Len(Script) |-> 0] /\ readyoks = 0
+  /\ sent = 0 /\ applied = 0 /\ taking = 0
 
 ---------------------------------------------------------------------------
 \* Protocol thread
@@ -77,7 +84,7 @@ P_WaitStop ==
          /\ UNCHANGED <<notified, q, ackSelf, ackKids, quitKids, wPc, wJob, wMyJob, wHasRes, ePc, search, quitFlag, pending, optsDone,
                         ponder, infinite, stopReq, mainJob, sid, jobsDone, waitForStop, pIdx, everSearched, out, readyoks>>
 P_WaitOpts ==
-         /\ pPc = "st5" /\ optsDone
+         /\ pPc = "st5" /\ OptsBarrierOpen
          /\ pPc' = (CASE CurCmd = "stop" -> "next" [] CurCmd = "quit" -> "qt1" [] OTHER -> "go1")
          /\ pIdx' = (IF CurCmd = "stop" THEN pIdx + 1 ELSE pIdx)
          /\ UNCHANGED <<notified, q, ackSelf, ackKids, quitKids, wPc, wJob, wMyJob, wHasRes, ePc, search, quitFlag, pending, optsDone,
@@ -111,7 +118,7 @@ P_So1 ==
          /\ UNCHANGED <<notified, q, ackSelf, ackKids, quitKids, wPc, wJob, wMyJob, wHasRes, ePc, search, quitFlag,
                         ponder, infinite, stopReq, mainJob, sid, jobsDone, waitForStop, pIdx, everSearched, out, readyoks>>
 P_Rd1 ==
-         /\ pPc = "rd1" /\ (everSearched \/ optsDone) /\ readyoks' = readyoks + 1 /\ pPc' = "next" /\ pIdx' = pIdx + 1
+         /\ pPc = "rd1" /\ (everSearched \/ OptsBarrierOpen) /\ readyoks' = readyoks + 1 /\ pPc' = "next" /\ pIdx' = pIdx + 1
          /\ UNCHANGED <<notified, q, ackSelf, ackKids, quitKids, wPc, wJob, wMyJob, wHasRes, ePc, search, quitFlag, pending, optsDone,
                         ponder, infinite, stopReq, mainJob, sid, jobsDone, waitForStop, everSearched, out>>
 P_Qt1 ==
@@ -134,8 +141,12 @@ E_ChkQuit ==
 E_Opts(from, to) ==
           /\ ePc = from
           /\ IF pending = 0 THEN optsDone' = TRUE /\ ePc' = to /\ pending' = pending
-             ELSE pending' = 0 /\ optsDone' = optsDone /\ ePc' = from
+             ELSE pending' = 0 /\ optsDone' = optsDone /\ ePc' = (IF from = "opts1" THEN "apply1" ELSE "apply2")    \* batch taken (under the mutex) ...
           /\ UNCHANGED <<notified, q, ackSelf, ackKids, quitKids, search, quitFlag, mainJob, jobsDone, waitForStop, out>> /\ UNCHANGED EU
+\* ... and applied outside the mutex (params.set + listeners), then the loop looks for more
+E_Apply(ap, back) ==
+          /\ ePc = ap /\ ePc' = back
+          /\ UNCHANGED <<notified, q, ackSelf, ackKids, quitKids, search, quitFlag, pending, optsDone, mainJob, jobsDone, waitForStop, out>> /\ UNCHANGED EU
 E_ChkSearch ==
           /\ ePc = "chksearch" /\ ePc' = (IF search THEN "begin" ELSE "wait")
           /\ UNCHANGED <<notified, q, ackSelf, ackKids, quitKids, search, quitFlag, pending, optsDone, mainJob, jobsDone, waitForStop, out>> /\ UNCHANGED EU
@@ -219,7 +230,7 @@ E_QuitPollEnd ==
 E_QuitWait ==
           /\ ePc = "quitwait" /\ notified["E"] /\ notified' = [notified EXCEPT !["E"] = FALSE] /\ ePc' = "quitpoll"
           /\ UNCHANGED <<q, ackSelf, ackKids, quitKids, search, quitFlag, pending, optsDone, mainJob, jobsDone, waitForStop, out>> /\ UNCHANGED EU
-ENext == E_Wait \/ E_ChkQuit \/ E_Opts("opts1", "chksearch") \/ E_Opts("opts2", "done") \/ E_ChkSearch \/ E_BeginBook \/ E_BeginSearch
+ENext == E_Wait \/ E_ChkQuit \/ E_Opts("opts1", "chksearch") \/ E_Opts("opts2", "done") \/ E_Apply("apply1", "opts1") \/ E_Apply("apply2", "opts2") \/ E_ChkSearch \/ E_BeginBook \/ E_BeginSearch
          \/ E_NewJob \/ E_PollCmd \/ E_PollEnd \/ E_PonderWait \/ E_Bestmove \/ E_SendStop \/ E_SelfAck
          \/ E_AckPollCmd \/ E_AckPollEnd \/ E_AckWait \/ E_ReNotify \/ E_SearchDone
          \/ E_Quit1 \/ E_QuitPollCmd \/ E_QuitPollEnd \/ E_QuitWait
@@ -313,9 +324,15 @@ W_SelfAck(h) ==
    /\ UNCHANGED <<ackKids, quitKids, wJob, wMyJob, wHasRes>> /\ UNCHANGED WU
 WNext == \E h \in Helpers : W_Wait(h) \/ W_Handle(h) \/ W_PollEnd(h) \/ W_SearchToPoll(h) \/ W_SPollEnd(h) \/ W_Report(h) \/ W_SelfAck(h)
 
-Next == PNext \/ ENext \/ WNext
+\* bookkeeping of the options (history variables of the barrier property; they never influence a guard)
+OvP == IF pPc = "so1" THEN sent' = sent + 1 /\ UNCHANGED <<applied, taking>> ELSE UNCHANGED ov
+OvE == IF ePc \in {"opts1", "opts2"} /\ pending > 0 THEN taking' = pending /\ UNCHANGED <<sent, applied>>
+       ELSE IF ePc \in {"apply1", "apply2"} THEN applied' = applied + taking /\ taking' = 0 /\ UNCHANGED sent
+       ELSE UNCHANGED ov
+Next == (PNext /\ OvP) \/ (ENext /\ OvE) \/ (WNext /\ UNCHANGED ov)
 Spec == Init /\ [][Next]_vars
-FairSpec == Spec /\ WF_vars(PNext) /\ WF_vars(ENext) /\ \A h \in Helpers : WF_vars(W_Wait(h) \/ W_Handle(h) \/ W_PollEnd(h) \/ W_SearchToPoll(h) \/ W_SPollEnd(h) \/ W_SelfAck(h))
+FairSpec == Spec /\ WF_vars(PNext /\ OvP) /\ WF_vars(ENext /\ OvE)
+            /\ \A h \in Helpers : WF_vars((W_Wait(h) \/ W_Handle(h) \/ W_PollEnd(h) \/ W_SearchToPoll(h) \/ W_SPollEnd(h) \/ W_SelfAck(h)) /\ UNCHANGED ov)
 
 ---------------------------------------------------------------------------
 Done == pIdx > Len(Script) /\ pPc = "next"
@@ -328,4 +345,6 @@ Quiescent == (ePc = "done") =>
     /\ \A c \in Comm : \A i \in 1..Len(q[c]) : q[c][i].t \notin {"START","STOP","RESULT","STOPACK"})
 ResultFresh == \A i \in 1..Len(q["E"]) : (q["E"][i].t = "RESULT" /\ ePc = "poll" /\ q["E"][i].job = mainJob) => q["E"][i].sid = sid
 NoDeadlock == ENABLED Next \/ Terminated
+\* a search is set up (and 'readyok' is owed) only when every option handed over so far is in effect
+OptionsInEffectAtGo == (pPc = "go1") => (applied = sent /\ taking = 0)
 =============================================================================
